@@ -2,6 +2,7 @@ package c06
 
 import (
 	"fmt"
+	"go/ast"
 	"os"
 	"path/filepath"
 	"sort"
@@ -16,6 +17,31 @@ type tagLine struct {
 	V  string `json:"v,omitempty"`
 	Eq bool   `json:"eq,omitempty"`
 	At bool   `json:"at,omitempty"`
+	Sp int    `json:"sp,omitempty"` // how the comment line is spaced: 0 `// +k`, 1 `//+k`, 2 `//   +k  `
+}
+
+// comment: the comment as it is written in the source (without indentation)
+func (t tagLine) comment() string {
+	switch t.Sp {
+	case 1:
+		return "//" + t.text()
+	case 2:
+		return "//   " + t.text() + "  "
+	}
+	return "// " + t.text()
+}
+
+// groupText: go/ast's CommentGroup.Text() of a comment group consisting of these comments ("" for none) —
+// the text pkg/types/package.go (commentLinesFrom) and pkg/gengo/context.go (package tags) start from.
+func groupText(comments []string) string {
+	if len(comments) == 0 {
+		return ""
+	}
+	cg := &ast.CommentGroup{}
+	for _, c := range comments {
+		cg.List = append(cg.List, &ast.Comment{Text: c})
+	}
+	return cg.Text()
 }
 
 func (t tagLine) text() string {
@@ -114,6 +140,7 @@ type defInfo struct {
 	Kind     string // KNamed | KAlias | KOther
 	PkgScope bool
 	Tags     []kv
+	DocText  string // Text() of the comment group written directly above the declaration ("" if none)
 	Action   string
 	Defers   []deferSpec
 }
@@ -123,6 +150,7 @@ type pkgInfo struct {
 	Path     string
 	Dir      string
 	FileTags [][]kv // per file that has a package doc, file-name order
+	FileDocs []string // Text() of those package docs, same order
 	Defs     []defInfo
 	Next     int // index of the imported package, -1
 }
@@ -152,13 +180,19 @@ func kindOf(k string) string {
 	return "KNamed"
 }
 
-func (w *srcw) docLines(indent string, text bool, name string, tags []tagLine) {
+// docLines writes the comment group and returns its comments as written
+func (w *srcw) docLines(indent string, text bool, name string, tags []tagLine) []string {
+	var cs []string
 	if text {
-		w.ln(indent + "// " + name + " is declared for the check.")
+		cs = append(cs, "// "+name+" is declared for the check.")
 	}
 	for _, t := range tags {
-		w.ln(indent + "// " + t.text())
+		cs = append(cs, t.comment())
 	}
+	for _, c := range cs {
+		w.ln(indent + c)
+	}
+	return cs
 }
 
 func typeBody(d typeDecl, extTarget string) string {
@@ -215,8 +249,9 @@ func writeModule(root string, pkgs []pkgSpec) (*layout, error) {
 		for fi, f := range files {
 			w := &srcw{}
 			if f.HasDoc {
-				w.docLines("", f.Text || len(f.Doc) == 0, "Package "+p.Dir, f.Doc)
+				cs := w.docLines("", f.Text || len(f.Doc) == 0, "Package "+p.Dir, f.Doc)
 				info.FileTags = append(info.FileTags, tagsOf(f.Doc))
+				info.FileDocs = append(info.FileDocs, groupText(cs))
 			}
 			w.ln("package " + p.Dir)
 			w.ln("")
@@ -239,7 +274,7 @@ func writeModule(root string, pkgs []pkgSpec) (*layout, error) {
 				if d.Kind == "aliasext" && (info.Next < 0 || ext == "") {
 					d.Kind = "alias"
 				}
-				w.docLines(indent, d.Text, d.Name, d.Tags)
+				cs := w.docLines(indent, d.Text, d.Name, d.Tags)
 				var line int
 				if grouped {
 					line = w.ln(indent + typeBody(d, ext))
@@ -249,7 +284,7 @@ func writeModule(root string, pkgs []pkgSpec) (*layout, error) {
 				lay.Pos[fmt.Sprintf("%s/%s:%d", p.Dir, f.Name, line)] = d.ID
 				scope := pkgScope && d.Name != "_"
 				info.Defs = append(info.Defs, defInfo{ID: d.ID, Name: d.Name, Kind: kindOf(d.Kind), PkgScope: scope,
-					Tags: tagsOf(d.Tags), Action: d.Action, Defers: d.Defers})
+					Tags: tagsOf(d.Tags), DocText: groupText(cs), Action: d.Action, Defers: d.Defers})
 				if d.Kind == "generic" {
 					synth++
 					info.Defs = append(info.Defs, defInfo{ID: synth, Name: d.TParam, Kind: "KOther"})
